@@ -2,7 +2,8 @@
    Spec level: [json_of] / [t2j_spec] of model/T2J.v on the decoded AST of ThriftWire.v (decoder proved in C19).
    The implementation is tied to the spec by Check03 (every output is parsed by the proved parser and compared). *)
 From Coq Require Import ZArith List Bool Lia.
-From DG Require Import ProtoWireRef ThriftWire Json Num Base64 T2J JsonProofs JsonSound NumProofs Base64Proofs T2JProofs.
+From DG Require Import ProtoWireRef ThriftWire Json Num Base64 T2J T2JUnset JsonProofs JsonSound NumProofs Base64Proofs T2JProofs T2JUnsetProofs.
+From DG Require J2T.
 Import ListNotations.
 Local Open Scope Z_scope.
 
@@ -60,6 +61,34 @@ Theorem C03_unknown_disallowed_fails : forall o fs vs,
   exists c, json_of o (DStruct fs) (VStruct vs) = TErr c.
 Proof. exact json_of_unknown_disallowed. Qed.
 Print Assumptions C03_unknown_disallowed_fails.
+
+(* the options that write fields the message does not carry (WriteDefaultField / WriteRequireField): the checker's spec
+   [t2j_specw] is the spec above when both are off; otherwise the members are the present known fields in wire order followed
+   by the written unset fields, each a declared, unmet field of the right requiredness with its alias and zero value *)
+Theorem C03_write_options_off : forall o, o_write_default o = false -> o_write_required o = false ->
+  (forall d v, json_ofw o d v = json_of o d v) /\ (forall d v, t2j_specw o d v = t2j_spec o d v).
+Proof. intros o Hd Hr. split; intros d v; [apply json_ofw_off | apply t2j_specw_off]; assumption. Qed.
+Print Assumptions C03_write_options_off.
+
+Theorem C03_members_with_unset : forall o fs vs ms,
+  json_ofw o (DStruct fs) (VStruct vs) = TOk (EObj ms) ->
+  exists us, unset_members o fs (map fst vs) = inl us /\ map fst ms = declared_keys fs vs ++ map fst us.
+Proof. exact json_ofw_members. Qed.
+Print Assumptions C03_members_with_unset.
+
+Theorem C03_unset_members_sound : forall o l present us, unset_walk o l present = inl us ->
+  forall m, In m us -> exists f, In f l /\ m = (f_key (fst f), zero_of (snd f)) /\ is_present present f = false /\
+    ((f_req (fst f) = 1 /\ o_write_required o = true) \/ (f_req (fst f) = 0 /\ o_write_default o = true)).
+Proof. exact unset_walk_sound. Qed.
+Print Assumptions C03_unset_members_sound.
+
+(* map keys of string AND binary type are written as their raw text (NoBase64Binary or not): that is the key text the inverse
+   converter (model J2T.v, any number policy) reads back to the same thrift string *)
+Theorem C03_string_key_read_back : forall o P s,
+  key_of o (VString s) = Some s /\
+  J2T.key_bytes P J2T.TBinary s = J2T.Ok (encode (VString s)) /\ J2T.key_bytes P J2T.TString s = J2T.Ok (encode (VString s)).
+Proof. intros o P s. repeat split. Qed.
+Print Assumptions C03_string_key_read_back.
 
 (* "never malformed" on the model: the text of every successful model conversion is one complete JSON document *)
 Theorem C03_model_text_wellformed : forall o d v txt, wf v = true -> desc_ok d = true ->
@@ -141,7 +170,7 @@ Example C03_quirk_303_refuted :
   has_neg_bytev e = true /\ option_map (jmatch e) (json_parse txt) = Some false /\ qmatch false false true e txt = Some [].
 Proof. vm_compute. repeat split; reflexivity. Qed.
 
-(* ================================================================================================================
+(* =========================================================================================================
    ALGORITHM LEVEL: the byte walk of conv/t2j (model/T2JBytes.v, mirroring doRecurse: field headers, container headers,
    skipping of unknown fields, incremental text with comma bookkeeping, requires bitmap) refines the spec json_of.
    Tied to the implementation by check 304 (text of the Gallina walk = text of BinaryConv.Do, double lexemes by dec2f64). *)
@@ -254,3 +283,12 @@ Theorem C03_walk_text_tokens : forall o v d n r txt r', o_value_mapping o = fals
   exists e, json_of o d v = TOk e /\ txt = render f64_exact_lexeme (jtoks e).
 Proof. exact walk_text_tokens. Qed.
 Print Assumptions C03_walk_text_tokens.
+=======
+(* write options (bits 9, 10): the unmet required field 1 and the unmet default fields 2, 4 are appended in ascending id with
+   their zero values, the unmet optional field 3 is not; a binary-keyed map keeps the raw key text *)
+Example C03_unset_example :
+  fst (t2j_specw (2 ^ 9 + 2 ^ 10) ex_desc (VStruct [(9, VI16 7)])) =
+    TOk (EObj [([100], EDouble 0); ([98; 105; 110], EStr []); ([115], EObj [])]) /\
+  fst (t2j_specw (2 ^ 9) ex_desc (VStruct [(9, VI16 7)])) = TErr E_REQUIRED /\
+  json_ofw 0 (DMap (DString true) (DScalar T_BOOL)) (VMap T_STRING T_BOOL [(VString [255; 34], VBool 1)]) = TOk (EObj [([255; 34], EBool true)]).
+Proof. vm_compute. repeat split; reflexivity. Qed.
